@@ -17,7 +17,7 @@ RULE = ('one run = one request whose target is generated from the URI grammar (a
         '(urllib.parse.urlsplit + ipaddress, cross-checked against the generator\'s own components) derives; '
         'non-trivial = the target has an IPv6 literal, userinfo, an explicit port, a non-ASCII host, reserved '
         'characters in the path, or is damaged; distinct = distinct event-log digests')
-PROBES = ['absolute', 'connect', 'origin_form', 'regname', 'idna', 'utf8_host', 'ipv4', 'ipv6', 'userinfo',
+PROBES = ['mutated_target', 'absolute', 'connect', 'origin_form', 'regname', 'idna', 'utf8_host', 'ipv4', 'ipv6', 'userinfo',
           'explicit_port', 'port_zero', 'reserved_path', 'damaged', 'segmented', 'connected_right', 'rejected_damaged']
 COMPONENTS = {
     'real': ['proxy/http/url.py', 'proxy/http/parser/parser.py', 'proxy/http/proxy/server.py (connect_upstream)',
@@ -48,6 +48,7 @@ V6 = [b'::1', b'2001:db8::1', b'2001:DB8:0:0:0:0:0:1', b'::ffff:10.0.3.1', b'fe8
 PATHS = [b'', b'/', b'/a/b', b'/x?y=1&z=2', b'?q=1', b'/a;b=c', b'/a@b', b'/a:b/c:80', b'//double', b'/?', b'/%2F%40',
          b'/*', b'/a?b?c', b'/a?u=http://other.example:81/z', b'/~u/', b'/a?x=[::1]', b'/sp%20ace']
 USERINFO = [b'', b'', b'', b'user:pw@', b'user@', b'u:p:w@', b':pw@', b'user:@']
+MUT_ALPHABET = [b':', b'/', b'@', b'[', b']', b'?', b'.', b'0', b'a', b'9']
 DAMAGED_ABS = [b'http://', b'http:///x', b'http://up.example:abc/', b'http://up.example:99999/', b'http://up.example:-1/',
                b'http://[::1/', b'http://[::1]x/', b'http://up.example:80:80/', b'http://user@/', b'http://[gggg::1]/',
                b'http://up.example:8o/']
@@ -59,6 +60,12 @@ def reference(form: str, target: bytes) -> Optional[Tuple[str, int, bytes]]:
     """(host, port, origin-form path) per urllib/ipaddress, or None if the reference rejects the target."""
     try:
         t = target.decode('utf-8')
+        if '#' in t or ' ' in t or not t:
+            return None         # no fragment, no space in a request-target
+        if form == 'absolute' and not t.startswith('http://'):
+            return None
+        if form == 'connect' and ('/' in t or '?' in t):
+            return None
         u = urlsplit(t if form == 'absolute' else '//' + t)
         host = u.hostname
         port = u.port
@@ -66,11 +73,15 @@ def reference(form: str, target: bytes) -> Optional[Tuple[str, int, bytes]]:
         return None
     if not host:
         return None
-    if form == 'connect' and (u.path or u.query or '?' in t or u.username is not None):
+    if form == 'connect' and (u.path or u.query or '?' in t):
         return None
+    if u.netloc.count('@') > 1:
+        return None         # an unescaped '@' inside userinfo: which one delimits the host is anybody's guess
     hostport = u.netloc.rsplit('@', 1)[-1]
-    if hostport.startswith('[') and re.match(r'^\[[0-9A-Fa-f:.]+\](:[0-9]*)?$', hostport) is None:
+    if ('[' in u.netloc or ']' in u.netloc) and re.match(r'^\[[0-9A-Fa-f:.]+\](:[0-9]*)?$', hostport) is None:
         return None
+    if '[' in u.netloc[:-len(hostport)] or ']' in u.netloc[:-len(hostport)]:
+        return None         # brackets are not userinfo characters
     if ':' in host or hostport.startswith('['):
         try:
             host = ipaddress.IPv6Address(host).compressed
@@ -90,6 +101,32 @@ def reference(form: str, target: bytes) -> Optional[Tuple[str, int, bytes]]:
     if '?' in t.split('//', 1)[-1]:
         path += '?' + u.query
     return host.lower(), port, path.encode('utf-8')
+
+
+def lenient(form: str, target: bytes) -> List[Tuple[str, int]]:
+    """Every (host, port) some reading of a target the strict reference rejects could be said to name: either '@' may end
+    the userinfo, an empty port is the default port.  A connection attempt to anything outside this list is mis-routing."""
+    t = target.decode('utf-8', 'replace')
+    if form == 'absolute':
+        if '://' not in t:
+            return []
+        t = t.split('://', 1)[1]
+    auth = re.split(r'[/?#]', t, 1)[0]
+    out: List[Tuple[str, int]] = []
+    for hp in {auth, auth.split('@', 1)[-1], auth.rsplit('@', 1)[-1]}:
+        m = re.match(r'^\[(.*)\](?::([0-9]*))?$', hp)
+        if m:
+            host, ptxt = m.group(1), m.group(2) or ''
+        elif ':' in hp and hp.rsplit(':', 1)[1].isdigit():
+            host, ptxt = hp.rsplit(':', 1)
+        elif hp.endswith(':'):
+            host, ptxt = hp[:-1], ''
+        else:
+            host, ptxt = hp, ''
+        prt = int(ptxt) if ptxt else (443 if form == 'connect' else 80)
+        if host and prt < 65536:
+            out.append((host.lower(), prt))
+    return out
 
 
 def run_one(tape: Any, cfg: Dict[str, Any], forbid: FrozenSet[str] = frozenset()) -> Result:
@@ -185,6 +222,32 @@ def run_one(tape: Any, cfg: Dict[str, Any], forbid: FrozenSet[str] = frozenset()
             if exp is None or exp[0] != mine_host or exp[1] != mine_port:
                 raise AssertionError('reference %r disagrees with generator (%r, %r) for %r' % (exp, mine_host, mine_port, target))
             state += [hostkind, pk, ui, pth if form == 'absolute' else b'']
+            if g.feature('mutated_target', 0.25):
+                # one or two character-level edits; the reference decides afresh whether the result is a valid target
+                keep = 7 if form == 'absolute' else 0      # the scheme stays: the edits are about host, port and path
+                t2 = bytearray(target)
+                for _ in range(1 + tape.draw(2, 'nmut')):
+                    i = keep + tape.draw(len(t2) - keep + 1, 'mpos')
+                    ch = MUT_ALPHABET[tape.draw(len(MUT_ALPHABET), 'mch')]
+                    op = tape.draw(3, 'mop')
+                    if op == 0 or i >= len(t2):
+                        t2[i:i] = ch
+                    elif op == 1:
+                        del t2[i:i + 1]
+                    else:
+                        t2[i:i + 1] = ch
+                if t2 and bytes(t2) != target and not bytes(t2).startswith(b'/'):
+                    target = bytes(t2)
+                    w.probe('mutated_target')
+                    nontrivial = True
+                    exp = reference(form, target)
+                    state.append('mut')
+                    if exp is None:
+                        damaged = True
+                        w.probe('damaged')
+                    else:
+                        hostkind = 'ipv6' if ':' in exp[0] else ('ipv4' if _is_v4(exp[0]) else 'regname')
+                        port = exp[1]
         method = b'CONNECT' if form == 'connect' else [b'GET', b'POST', b'DELETE'][tape.draw(3, 'method')]
         hdrs = [(b'Host', b'ignored.example')] + gen_headers(tape, tape.draw(3, 'nh'), [b'host'])
         body = b''
@@ -209,8 +272,10 @@ def run_one(tape: Any, cfg: Dict[str, Any], forbid: FrozenSet[str] = frozenset()
         h = L1(w, flags)
         RESP = b'HTTP/1.1 200 OK\r\nContent-Length: 2\r\nConnection: close\r\n\r\nok'
         org = None
-        if exp is not None:
-            ip = exp[0] if hostkind in ('ipv4', 'ipv6') else DNS[exp[0].encode('idna').decode('ascii')]
+        ip = None
+        if exp is not None and not damaged:
+            ip = exp[0] if hostkind in ('ipv4', 'ipv6') else DNS.get(exp[0].encode('idna').decode('ascii'))
+        if exp is not None and not damaged and ip is not None and 0 < exp[1] < 65536:
             if form == 'connect':
                 org = Origin(w, ip, exp[1], lambda i: [('wait_rx', lambda p: len(p.rx) >= 4), ('send', b'pong', 'burst'),
                                                         ('wait_eof',), ('close',)], name='right')
@@ -239,7 +304,14 @@ def run_one(tape: Any, cfg: Dict[str, Any], forbid: FrozenSet[str] = frozenset()
             first = p['responses'][0] if p['responses'] else None
             tdesc = target.decode('latin-1')
             if damaged:
-                if w.connect_log:
+                ok_dst = set()
+                for hst, prt in lenient(form, target):
+                    try:
+                        adr = DNS.get(hst.encode('idna').decode('ascii').lower(), hst)
+                    except UnicodeError:
+                        adr = hst
+                    ok_dst.add((_canon(adr), prt))
+                if [c for c in w.connect_log if (_canon(c[0]), c[1]) not in ok_dst]:
                     w.fail('damaged_target_connected', _dk(target), 'target %r (rejected by the reference parser) caused a connection '
                            'attempt to %r' % (tdesc, w.connect_log[:2]))
                 elif first is not None and first['status'] // 100 == 2:
@@ -254,10 +326,10 @@ def run_one(tape: Any, cfg: Dict[str, Any], forbid: FrozenSet[str] = frozenset()
                 elif not weblog or weblog[0][0] != target:
                     w.fail('wrong_path', 'origin', 'origin-form target %r reached the web route as %r' % (tdesc, weblog[:1]))
             else:
-                assert exp is not None and org is not None
+                assert exp is not None
                 sig = '%s:%s%s%s' % (form, hostkind, ':userinfo' if form == 'absolute' and ui else '',
                                      ':port0' if port == 0 else '')
-                want = (ipaddress.ip_address(ip).compressed, exp[1])
+                want = (ipaddress.ip_address(ip).compressed, exp[1]) if ip is not None else None
                 wrong = [c for c in w.connect_log if (_canon(c[0]), c[1]) != want]
                 names = [r for r in w.resolve_log if not _same_name(r[0], exp[0], hostkind)]
                 if wrong:
@@ -266,7 +338,8 @@ def run_one(tape: Any, cfg: Dict[str, Any], forbid: FrozenSet[str] = frozenset()
                 elif names:
                     w.fail('resolved_wrong_name', sig, 'target %r names host %r but the resolver was asked for %r'
                            % (tdesc, exp[0], names[:3]))
-                elif port == 0:
+                elif port == 0 or org is None:
+                    # unconnectable (port 0) or unknown name: the only acceptable outcome is an error answer
                     if first is not None and first['status'] // 100 == 2:
                         w.fail('port_zero_served', sig, 'target %r answered %d' % (tdesc, first['status']))
                 elif not oks:
@@ -298,6 +371,13 @@ def run_one(tape: Any, cfg: Dict[str, Any], forbid: FrozenSet[str] = frozenset()
                         'reference': None if exp is None else (exp[0], exp[1], exp[2].decode('latin-1')),
                         'request': raw.decode('latin-1')[:300], 'cuts': cuts[:10]}
         return scen.end_run(w, h, res)
+
+
+def _is_v4(h: str) -> bool:
+    try:
+        return ipaddress.ip_address(h).version == 4
+    except ValueError:
+        return False
 
 
 def _canon(host: str) -> str:
